@@ -381,7 +381,9 @@ def _hyp_segments(spec, seed):
         ops = []
         for _ in range(draw(st.integers(1, 12))):
             kind = draw(st.sampled_from(['set', 'set', 'get']))
-            with_id = draw(st.sampled_from([None, None, sid, sid, 'ZZZ', 'REF']))
+            # foreign ids come from the same pool as the segments of other cases of this process: a designator that
+            # worked on its own segment a moment ago must still be refused here
+            with_id = draw(st.sampled_from([None, None, sid, sid, 'ZZZ', 'REF', 'TST', 'NM1', 'N3', 'SV1']))
             ei = draw(st.one_of(st.integers(1, 8), st.integers(1, 30)))
             ci = draw(st.sampled_from([None, None, 1, 2, 3, 7]))
             v = draw(val) if kind == 'set' else None
